@@ -116,7 +116,7 @@ pub fn campaigns(ctx: &Ctx) -> Stats {
             Some(exact_case(opi, &shapes[(p / ns) as usize], &shapes[(p % ns) as usize]))
         },
     ));
-    let (max_rank, max_size, total, max_elems) = ctx.tier.pick((5usize, 6usize, 40000u64, 400usize), (5, 8, 400000, 2048));
+    let (max_rank, max_size, total, max_elems) = ctx.tier.pick((5usize, 8usize, 40000u64, 600usize), (5, 11, 400000, 2048));
     let strat = move || {
         (
             prop::collection::vec(1..=max_size, 1..=max_rank),
